@@ -32,49 +32,138 @@ def OdeOnce (cx : Ctx) (F : Flat) : Prop :=
   ∀ e₁ ∈ F.eqs, ∀ e₂ ∈ F.eqs, e₁.lhs.isDiff = true → e₂.lhs.isDiff = true →
     cx.num (.var e₁.lhs.defines) = cx.num (.var e₂.lhs.defines) → cx.num e₁.lhs = cx.num e₂.lhs
 
-theorem setType_computed {ty : Node → Option VType} {w v : Node} {t : VType}
-    (h : setType ty w t v = some .computed) : (w = v ∧ t = .computed) ∨ ty v = some .computed := by
-  unfold setType at h
-  split at h
-  · rename_i hv
-    simp only [Option.some.injEq] at h
-    exact Or.inl ⟨hv.symm, h⟩
-  · exact Or.inr h
+/-- a role found after a run of assignments was assigned in the run, or was there before -/
+theorem applyWrites_some : ∀ (ws : List (Node × VType)) (ty : Node → Option VType) (v : Node) (t : VType),
+    applyWrites ty ws v = some t → (v, t) ∈ ws ∨ ty v = some t
+  | [], _, _, _, h => Or.inr h
+  | (k, t0) :: ws, ty, v, t, h => by
+      have h' : applyWrites (setType ty k t0) ws v = some t := h
+      rcases applyWrites_some ws _ v t h' with h1 | h1
+      · exact Or.inl (List.mem_cons_of_mem _ h1)
+      · unfold setType at h1
+        split at h1
+        · rename_i hv
+          simp only [Option.some.injEq] at h1
+          rw [hv, ← h1]
+          exact Or.inl List.mem_cons_self
+        · exact Or.inr h1
+
+/-- a run of assignments that agree on the role of `v`: `v` has that role if it was assigned at all -/
+theorem applyWrites_spec (v : Node) (t0 : VType) : ∀ (ws : List (Node × VType)) (ty : Node → Option VType),
+    (∀ p ∈ ws, p.1 = v → p.2 = t0) →
+    applyWrites ty ws v = if ws.any (fun p => p.1 == v) then some t0 else ty v
+  | [], _, _ => rfl
+  | (k, t) :: ws, ty, h => by
+      have e : applyWrites ty ((k, t) :: ws) v = applyWrites (setType ty k t) ws v := rfl
+      rw [e, applyWrites_spec v t0 ws _ (fun p hp => h p (List.mem_cons_of_mem _ hp))]
+      by_cases hw : ws.any (fun p => p.1 == v) = true
+      · simp [hw]
+      · by_cases hk : k = v
+        · have ht : t = t0 := h (k, t) List.mem_cons_self hk
+          simp [hw, hk, ht, setType]
+        · have hk' : ¬ v = k := fun hh => hk hh.symm
+          simp [hw, hk, hk', setType]
+
+/-- the order of a run of assignments does not matter when assignments to the same variable assign the same role -/
+theorem applyWrites_perm {ws ws' : List (Node × VType)} (hp : ws'.Perm ws)
+    (hfun : ∀ p ∈ ws, ∀ q ∈ ws, p.1 = q.1 → p.2 = q.2) {ty ty' : Node → Option VType} (v : Node)
+    (hty : ty' v = ty v) : applyWrites ty' ws' v = applyWrites ty ws v := by
+  by_cases h : ∃ p ∈ ws, p.1 = v
+  · obtain ⟨p, hpm, hpv⟩ := h
+    rw [applyWrites_spec v p.2 ws ty (fun q hq hqv => hfun q hq p hpm (hqv.trans hpv.symm)),
+      applyWrites_spec v p.2 ws' ty' (fun q hq hqv => hfun q (hp.mem_iff.mp hq) p hpm (hqv.trans hpv.symm)),
+      hp.any_eq, hty]
+  · rw [applyWrites_spec v .state ws ty (fun q hq hqv => absurd ⟨q, hq, hqv⟩ h),
+      applyWrites_spec v .state ws' ty' (fun q hq hqv => absurd ⟨q, hp.mem_iff.mp hq, hqv⟩ h),
+      hp.any_eq, hty]
+
+theorem eq_of_nodup_map {α β : Type} (f : α → β) : ∀ (l : List α), (l.map f).Nodup →
+    ∀ x ∈ l, ∀ y ∈ l, f x = f y → x = y
+  | [], _, _, hx, _, _, _ => by cases hx
+  | a :: l, hnd, x, hx, y, hy, hxy => by
+      rw [List.map_cons, List.nodup_cons] at hnd
+      rcases List.mem_cons.mp hx with hxa | hxl
+      · rcases List.mem_cons.mp hy with hya | hyl
+        · rw [hxa, hya]
+        · exact absurd (by rw [← hxa, hxy]; exact List.mem_map_of_mem hyl) hnd.1
+      · rcases List.mem_cons.mp hy with hya | hyl
+        · exact absurd (by rw [← hya, ← hxy]; exact List.mem_map_of_mem hxl) hnd.1
+        · exact eq_of_nodup_map f l hnd.2 x hxl y hyl hxy
+
+theorem mem_lhsWrites {e : FlatEq} {p : Node × VType} (h : p ∈ lhsWrites cx e) :
+    ∃ x, e.lhs = .var x ∧ p.1 = cx.num e.lhs ∧
+      p.2 = (match e.rhs with | .num _ _ => VType.parameter | _ => VType.computed) := by
+  unfold lhsWrites at h
+  cases hl : e.lhs with
+  | var x =>
+      rw [hl] at h
+      simp only [List.mem_singleton] at h
+      subst h
+      exact ⟨x, rfl, rfl, rfl⟩
+  | diff x t => rw [hl] at h; cases h
+
+theorem mem_stateWrites {e : FlatEq} {p : Node × VType} (h : p ∈ stateWrites cx e) : p.2 = .state := by
+  unfold stateWrites at h
+  cases hl : e.lhs with
+  | var x => rw [hl] at h; cases h
+  | diff x t => rw [hl] at h; simp only [List.mem_singleton] at h; rw [h]
+
+theorem mem_freeWrites {e : FlatEq} {p : Node × VType} (h : p ∈ freeWrites cx e) : p.2 = .free := by
+  unfold freeWrites at h
+  cases hl : e.lhs with
+  | var x => rw [hl] at h; cases h
+  | diff x t => rw [hl] at h; simp only [List.mem_singleton] at h; rw [h]
+
+/-- **The roles are a function of the SET of equations** (since the `fix:` commit "the roles that come from the ODEs
+    win"): for equation lists that are permutations of one another — with pairwise different left-hand sides, which is
+    what `Model.graph` asserts — every variable has the same `Variable.type`. -/
+theorem types_perm (cx : Ctx) {eqs eqs' : List FlatEq} (hp : eqs'.Perm eqs)
+    (hnd : (eqs.map (fun e => cx.num e.lhs)).Nodup) : types cx eqs' = types cx eqs := by
+  funext v
+  unfold types
+  apply applyWrites_perm (hp.flatMap_right _)
+  · intro p hp' q hq _
+    obtain ⟨_, _, h1⟩ := List.mem_flatMap.mp hp'
+    obtain ⟨_, _, h2⟩ := List.mem_flatMap.mp hq
+    rw [mem_freeWrites h1, mem_freeWrites h2]
+  apply applyWrites_perm (hp.flatMap_right _)
+  · intro p hp' q hq _
+    obtain ⟨_, _, h1⟩ := List.mem_flatMap.mp hp'
+    obtain ⟨_, _, h2⟩ := List.mem_flatMap.mp hq
+    rw [mem_stateWrites h1, mem_stateWrites h2]
+  apply applyWrites_perm (hp.flatMap_right _)
+  · intro p hp' q hq hpq
+    obtain ⟨e₁, he₁, h1⟩ := List.mem_flatMap.mp hp'
+    obtain ⟨e₂, he₂, h2⟩ := List.mem_flatMap.mp hq
+    obtain ⟨_, _, hk₁, ht₁⟩ := mem_lhsWrites h1
+    obtain ⟨_, _, hk₂, ht₂⟩ := mem_lhsWrites h2
+    have : e₁ = e₂ := eq_of_nodup_map _ eqs hnd e₁ he₁ e₂ he₂ (by rw [← hk₁, ← hk₂, hpq])
+    rw [ht₁, ht₂, this]
+  · rfl
 
 /-- only an equation `x = …` makes `x` COMPUTED -/
-theorem types_computed (cx : Ctx) : ∀ (eqs : List FlatEq) (ty : Node → Option VType) (v : Node),
-    eqs.foldl (typeStep cx) ty v = some .computed →
-      ty v = some .computed ∨ ∃ e ∈ eqs, ∃ x, e.lhs = .var x ∧ cx.num (.var x) = v
-  | [], _, _, h => Or.inl h
-  | e :: es, ty, v, h => by
-      rw [List.foldl_cons] at h
-      rcases types_computed cx es _ v h with h1 | ⟨e', he', x, hx, hv⟩
-      · unfold typeStep at h1
-        cases hl : e.lhs with
-        | var x =>
-            rw [hl] at h1
-            simp only at h1
-            rcases setType_computed h1 with ⟨hv, _⟩ | h2
-            · exact Or.inr ⟨e, List.mem_cons_self, x, hl, hv⟩
-            · exact Or.inl h2
-        | diff x t =>
-            rw [hl] at h1
-            simp only at h1
-            rcases setType_computed h1 with ⟨_, ht⟩ | h2
-            · cases ht
-            · rcases setType_computed h2 with ⟨_, ht⟩ | h3
-              · cases ht
-              · exact Or.inl h3
-      · exact Or.inr ⟨e', List.mem_cons_of_mem _ he', x, hx, hv⟩
+theorem types_computed (cx : Ctx) (eqs : List FlatEq) (v : Node) (h : types cx eqs v = some .computed) :
+    ∃ e ∈ eqs, ∃ x, e.lhs = .var x ∧ cx.num (.var x) = v := by
+  unfold types at h
+  rcases applyWrites_some _ _ v _ h with h | h
+  · obtain ⟨_, _, h1⟩ := List.mem_flatMap.mp h
+    cases mem_freeWrites h1
+  · rcases applyWrites_some _ _ v _ h with h | h
+    · obtain ⟨_, _, h1⟩ := List.mem_flatMap.mp h
+      cases mem_stateWrites h1
+    · rcases applyWrites_some _ _ v _ h with h | h
+      · obtain ⟨e, he, h1⟩ := List.mem_flatMap.mp h
+        obtain ⟨x, hx, hk, _⟩ := mem_lhsWrites h1
+        exact ⟨e, he, x, hx, by rw [← hx]; exact hk.symm⟩
+      · cases h
 
 theorem computed_declared (hd : Declared cx F) {v : Node} (h : types cx F.eqs v = some .computed) :
     v ∈ varNodes cx F := by
-  rcases types_computed cx F.eqs _ v h with h0 | ⟨e, he, x, hx, hv⟩
-  · cases h0
-  · have := hd e he
-    rw [hx] at this
-    simp only [Lhs.defines] at this
-    exact hv ▸ this
+  obtain ⟨e, he, x, hx, hv⟩ := types_computed cx F.eqs v h
+  have := hd e he
+  rw [hx] at this
+  simp only [Lhs.defines] at this
+  exact hv ▸ this
 
 /-- a derivative node is the left-hand side of an ODE; `stateOf` is that ODE's state -/
 theorem isDeriv_spec {d : Node} (h : isDeriv cx F d = true) :
@@ -102,5 +191,81 @@ theorem stateOf_inj (hd : Declared cx F) (ho : OdeOnce cx F) {a b : Node} (ha : 
   have := orderAdded_inj (hd e₁ he₁) (hd e₂ he₂) h
   rw [← hn₁, ← hn₂]
   exact ho e₁ he₁ e₂ he₂ hd₁ hd₂ this
+
+/-! ## Permuting `Model.equations` (what a permutation of components / `<math>` elements / equations does) -/
+
+variable {π : Adv} {obs : FlatEq → List (Lhs VRef)}
+
+/-- validity of the input of `Model.graph` does not look at the order of the equations -/
+theorem valid_of_perm {key : Node → String} {eqs eqs' : List C09.Eqn} (hp : eqs'.Perm eqs) (hv : C09.Valid key eqs) :
+    C09.Valid key eqs' where
+  lhsNodup := (hp.map _).nodup_iff.mpr hv.lhsNodup
+  keyNodup := ((hp.map _).map _).nodup_iff.mpr hv.keyNodup
+  refsOk := by
+    intro e he r hr
+    have := hv.refsOk e (hp.mem_iff.mp he) r hr
+    unfold C09.hasEq C09.isStateOrFree at this ⊢
+    rw [hp.any_eq, hp.any_eq]
+    exact this
+
+/-- `Model.graph` of the same equations in another order: it builds as well, with the same node SET -/
+theorem graph_perm {F F' : Flat} (hp : F'.eqs.Perm F.eqs) {g : C09.Graph} (h : graph cx π obs F = .ok g) :
+    ∃ g', graph cx π obs F' = .ok g' ∧ g'.nodes.Perm g.nodes := by
+  unfold graph at h ⊢
+  have hsys : (system cx π obs F').Perm (system cx π obs F) := hp.map _
+  obtain ⟨hvalid, hspec⟩ := C09.buildGraph_valid h
+  obtain ⟨g', hg'⟩ := C09.buildGraph_ok (valid_of_perm hsys hvalid)
+  obtain ⟨_, hspec'⟩ := C09.buildGraph_valid hg'
+  refine ⟨g', hg', ?_⟩
+  rw [List.perm_ext_iff_of_nodup hspec'.wf.nodup hspec.wf.nodup]
+  intro a
+  rw [hspec'.nodes, hspec.nodes]
+  unfold C09.hasEq C09.isStateOrFree
+  rw [hsys.any_eq, hsys.any_eq]
+
+theorem isDeriv_perm {F F' : Flat} (hp : F'.eqs.Perm F.eqs) : isDeriv cx F' = isDeriv cx F := by
+  funext v
+  unfold isDeriv
+  exact hp.any_eq
+
+theorem orderAdded_vars {F F' : Flat} (hv : F'.vars = F.vars) : orderAdded cx F' = orderAdded cx F := by
+  funext v
+  unfold orderAdded variables
+  rw [hv]
+
+/-- the left-hand sides `Model.graph` asserts to be pairwise different are those of the flat equations -/
+theorem system_lhs_eq (cx : Ctx) (π : Adv) (obs : FlatEq → List (Lhs VRef)) (F : Flat) :
+    (system cx π obs F).map (·.lhs) = F.eqs.map (fun e => cx.num e.lhs) := by
+  simp only [system, List.map_map]
+  rfl
+
+/-- **`get_derived_quantities()` does not depend on the order of `Model.equations`** (since the `fix:` commit "the
+    roles that come from the ODEs win"): two flat models with the same variables and the same equations in another
+    order answer with the same list, or are both refused. -/
+theorem derived_perm {F F' : Flat} (hvars : F'.vars = F.vars) (hp : F'.eqs.Perm F.eqs) (hd : Declared cx F) :
+    (getDerivedQuantities cx π obs F').toOption = (getDerivedQuantities cx π obs F).toOption := by
+  unfold getDerivedQuantities
+  cases h : graph cx π obs F with
+  | error x =>
+      cases h' : graph cx π obs F' with
+      | error y => rfl
+      | ok g' =>
+          obtain ⟨g, hg, _⟩ := graph_perm hp.symm h'
+          rw [h] at hg; cases hg
+  | ok g =>
+      obtain ⟨g', hg', hperm⟩ := graph_perm hp h
+      rw [hg']
+      have hnd : (F.eqs.map (fun e => cx.num e.lhs)).Nodup := by
+        rw [← system_lhs_eq cx π obs F]
+        exact (C09.buildGraph_valid h).1.lhsNodup
+      simp only [Except.toOption]
+      rw [types_perm cx hp hnd, orderAdded_vars hvars, isDeriv_perm hp]
+      congr 1
+      apply sortBy_eq_of_perm _ (hperm.filter _)
+      intro a ha b hb hk
+      have ha' := (List.mem_filter.mp ha).2
+      have hb' := (List.mem_filter.mp hb).2
+      simp only [Bool.and_eq_true, beq_iff_eq] at ha' hb'
+      exact orderAdded_inj (computed_declared hd ha'.2) (computed_declared hd hb'.2) hk
 
 end C15
